@@ -209,6 +209,9 @@ def gen_task_class():
                     import json as _json
                     with open(cf, "a") as fh:
                         fh.write(_json.dumps(trace._enc_pos(x)) + "\n")
+                if d.get("delay"):
+                    import time as _t, random as _r
+                    _t.sleep(d["delay"] * (0.5 + _r.Random(hash(tuple(map(repr, x)))).random()))
                 if d.get("raise_after") is not None:
                     d["raise_after"] -= 1
                     if d["raise_after"] < 0:
